@@ -198,7 +198,7 @@ theorem zero_length_key_not_roundtrip :
     enc realTables (.enumerated ⟨[], false⟩ ⟨[], false⟩) = .ok [0, 0, 0, 0, 0, 0, 0, 0] ∧
       errorOf (dec realTables .enumerated [0, 0, 0, 0, 0, 0, 0, 0] 0) = some .ioError := by decide +kernel
 
-/-- `String("𐀀")`: an adjacent surrogate pair is written as two units and read back as one character -/
+/-- `String(chr(0xD800) + chr(0xDC00))`: an adjacent surrogate pair is written as two units and read back as one character -/
 theorem surrogate_pair_string_not_roundtrip :
     enc realTables (.string [0xD800, 0xDC00]) = .ok [0, 0, 0, 2, 0xD8, 0, 0xDC, 0] ∧
       stringOf (dec realTables .string [0, 0, 0, 2, 0xD8, 0, 0xDC, 0] 0) = some [0x10000] := by decide +kernel
